@@ -330,7 +330,7 @@ Qed.
 (** * 2. The reading programs compute the pure reading, in every state        *)
 (* ------------------------------------------------------------------------- *)
 
-Lemma in_isort_N x l : In x (isort_by N.compare (fun y => y) l) <-> In x l.
+Lemma in_isort_Nv x l : In x (isort_by N.compare (fun y => y) l) <-> In x l.
 Proof. apply in_isort. Qed.
 
 Section Corr.
@@ -339,10 +339,10 @@ Section Corr.
   Notation fin := (fin pre).
 
   (* a listed sub-directory of i/ is a DHunkSub of this band, and exists *)
-  Lemma subdir_listed b s :
+  Lemma subdir_listed_v b s :
     In s (subdir_numbers (children_dirs a (DIndex b))) -> has_dir a (DHunkSub b s) = true.
   Proof.
-    unfold subdir_numbers. rewrite in_isort_N, in_flat_map. intros [d [Hd Hs]].
+    unfold subdir_numbers. rewrite in_isort_Nv, in_flat_map. intros [d [Hd Hs]].
     unfold children_dirs in Hd. apply filter_In in Hd. destruct Hd as [Hd Hp].
     destruct d as [| |b'|b'|b' s'|s']; try contradiction. destruct Hs as [->|[]].
     cbn [parent_d] in Hp. destruct (dpath_eqb_spec (DIndex b') (DIndex b)) as [E|]; [|discriminate].
@@ -352,7 +352,7 @@ Section Corr.
   Lemma block_subdir_listed s :
     In s (block_subdirs (children_dirs a DBlocks)) -> has_dir a (DBlockSub s) = true.
   Proof.
-    unfold block_subdirs. rewrite in_isort_N, in_flat_map. intros [d [Hd Hs]].
+    unfold block_subdirs. rewrite in_isort_Nv, in_flat_map. intros [d [Hd Hs]].
     unfold children_dirs in Hd. apply filter_In in Hd. destruct Hd as [Hd Hp].
     destruct d as [| |b'|b'|b' s'|s']; try contradiction. destruct Hs as [->|[]].
     apply has_dir_In. exact Hd.
@@ -362,7 +362,7 @@ Section Corr.
     Variable keep : entry -> bool.
     Notation T1 := (fun _ : entry => true).
 
-    Lemma scan_buf_all buf : forall acc, scan_buf keep T1 buf acc = (acc ++ filter keep buf, None).
+    Lemma scan_buf_all_v buf : forall acc, scan_buf keep T1 buf acc = (acc ++ filter keep buf, None).
     Proof.
       induction buf as [|e buf IH]; intros acc; cbn [scan_buf filter]; [rewrite app_nil_r; reflexivity|].
       destruct (keep e); [|apply IH]. rewrite IH, <- app_assoc. reflexivity.
@@ -378,7 +378,7 @@ Section Corr.
       - destruct e; try apply IH. reflexivity.
       - destruct c as [p| |]; try apply IH. destruct p as [|v|t|es|c]; try apply IH.
         destruct (phstep (Some es) after) as [[out|] after']; [|apply IH].
-        rewrite scan_buf_all. apply IH.
+        rewrite scan_buf_all_v. apply IH.
     Qed.
 
     Lemma list_subdirs_pure b subs : forall acc kfail k,
@@ -400,8 +400,8 @@ Section Corr.
       destruct (head_status (rd a (PHead (N.of_nat n)))) eqn:E;
         [| reflexivity | exfalso; exact (head_status_not_panic _ E)].
       rewrite fin_list. unfold ls at 1 2. destruct (has_dir a (DIndex (N.of_nat n))); [|reflexivity].
-      rewrite list_subdirs_pure by apply subdir_listed. cbn [app].
-      rewrite fin_read. fold (listed_hunks pre a (N.of_nat n)).
+      rewrite list_subdirs_pure by apply subdir_listed_v. cbn [app].
+      rewrite fin_read. fold (hunks_listed pre a (N.of_nat n)).
       rewrite hunks_loop_pure. reflexivity.
     Qed.
 
@@ -434,15 +434,15 @@ Section Corr.
     Qed.
   End Stitched.
 
-  Lemma band_opens_status b : band_opens a b = true <-> head_status (rd a (PHead b)) = HOk.
-  Proof. unfold band_opens. destruct (head_status (rd a (PHead b))); split; congruence. Qed.
+  Lemma opens_b_status b : opens_b a b = true <-> head_status (rd a (PHead b)) = HOk.
+  Proof. unfold opens_b. destruct (head_status (rd a (PHead b))); split; congruence. Qed.
 
   Lemma validate_bands_pure ids : forall lens errs k,
     fin (validate_bands ids lens errs k) a
     = let '(l, e) := vb_pure pre a ids lens errs in fin (k l e) a.
   Proof.
     induction ids as [|b ids IH]; intros lens errs k; cbn [validate_bands vb_pure]; [reflexivity|].
-    rewrite fin_read. unfold band_opens.
+    rewrite fin_read. unfold opens_b.
     destruct (head_status (rd a (PHead b))) eqn:E;
       [| apply IH | exfalso; exact (head_status_not_panic _ E)].
     rewrite fin_list. destruct (ls pre a (DBand b)) as [|e|c|ds fs|ne]; try apply IH.
@@ -511,7 +511,7 @@ Proof.
   - intros x y z. rewrite !N.compare_lt_iff. lia.
 Qed.
 
-Lemma isort_N_sorted_lt l : NoDup l -> StronglySorted N.lt (isort_by N.compare (fun x => x) l).
+Lemma isort_Nv_sorted_lt l : NoDup l -> StronglySorted N.lt (isort_by N.compare (fun x => x) l).
 Proof.
   intros ND.
   assert (ND' : NoDup (isort_by N.compare (fun x => x) l)).
@@ -524,7 +524,7 @@ Proof.
 Qed.
 
 (* at most one output per element, outputs determine the key *)
-Lemma NoDup_flat_map_single {A B K} (key : A -> K) (g : A -> list B) l :
+Lemma NoDup_flat_map_single_v {A B K} (key : A -> K) (g : A -> list B) l :
   NoDup (map key l) ->
   (forall p, In p l -> (length (g p) <= 1)%nat) ->
   (forall p q h, In p l -> In q l -> In h (g p) -> In h (g q) -> key p = key q) ->
@@ -561,7 +561,7 @@ Proof.
     split; [exact C|]. lia.
 Qed.
 
-Lemma In_keys_get (a : arch) f : In f (map fst (files a)) -> get a f <> None.
+Lemma keys_get_v (a : arch) f : In f (map fst (files a)) -> get a f <> None.
 Proof. intros Hin E. apply (lookup_None_notin _ _ E). exact Hin. Qed.
 
 Lemma get_In_keys (a : arch) f : get a f <> None -> In f (map fst (files a)).
@@ -578,11 +578,11 @@ Section Listing.
   Variable a : arch.
 
   (* a listed hunk number is the number of a hunk file of this band *)
-  Lemma hunk_listed b s h :
+  Lemma hunk_listed_v b s h :
     In h (hunk_numbers (children_files pre a (DHunkSub b s))) ->
     In (PHunk b h) (map fst (files a)) /\ h / HUNKS_PER_SUBDIR = s.
   Proof.
-    unfold hunk_numbers. rewrite in_isort_N, in_flat_map. intros [[f ne] [Hf Hh]].
+    unfold hunk_numbers. rewrite in_isort_Nv, in_flat_map. intros [[f ne] [Hf Hh]].
     unfold children_files in Hf. apply in_map_iff in Hf. destruct Hf as [[g x] [E Hg]].
     cbn [fst snd] in E. inversion E; subst f ne. clear E.
     apply filter_In in Hg. destruct Hg as [Hg Hp]. cbn [fst] in Hp, Hh.
@@ -591,22 +591,22 @@ Section Listing.
     inversion E; subst. split; [|reflexivity]. apply in_map_iff. exists (PHunk b h, x). auto.
   Qed.
 
-  Lemma listed_hunks_exist b h : In h (listed_hunks pre a b) -> get a (PHunk b h) <> None.
+  Lemma hunks_listed_exist b h : In h (hunks_listed pre a b) -> get a (PHunk b h) <> None.
   Proof.
-    unfold listed_hunks. rewrite in_flat_map. intros [s [_ Hh]]. apply In_keys_get. apply (hunk_listed b s h Hh).
+    unfold hunks_listed. rewrite in_flat_map. intros [s [_ Hh]]. apply keys_get_v. apply (hunk_listed_v b s h Hh).
   Qed.
 
   (* every hunk file whose sub-directory exists is listed *)
   Lemma hunk_file_listed b h :
     get a (PHunk b h) <> None -> In (DHunkSub b (h / HUNKS_PER_SUBDIR)) (dirs a) ->
-    In h (listed_hunks pre a b).
+    In h (hunks_listed pre a b).
   Proof.
     intros Hg Hsub. apply get_In_keys in Hg.
-    unfold listed_hunks. apply in_flat_map. exists (h / HUNKS_PER_SUBDIR). split.
-    - unfold subdir_numbers. rewrite in_isort_N, in_flat_map. exists (DHunkSub b (h / HUNKS_PER_SUBDIR)).
+    unfold hunks_listed. apply in_flat_map. exists (h / HUNKS_PER_SUBDIR). split.
+    - unfold subdir_numbers. rewrite in_isort_Nv, in_flat_map. exists (DHunkSub b (h / HUNKS_PER_SUBDIR)).
       split; [|left; reflexivity]. unfold children_dirs. apply filter_In. split; [exact Hsub|].
       cbn [parent_d]. destruct (dpath_eqb_spec (DIndex b) (DIndex b)); congruence.
-    - unfold hunk_numbers. rewrite in_isort_N, in_flat_map.
+    - unfold hunk_numbers. rewrite in_isort_Nv, in_flat_map.
       apply in_map_iff in Hg. destruct Hg as [[g x] [E Hg]]. cbn [fst] in E. subst g.
       exists (PHunk b h, nonempty x). split; [|left; reflexivity].
       unfold children_files. apply in_map_iff. exists (PHunk b h, x). split; [reflexivity|].
@@ -617,36 +617,36 @@ Section Listing.
   Hypothesis NDd : NoDup (dirs a).
   Hypothesis NDf : FilesND a.
 
-  Definition hnum (p : fpath * bool) : list N := match fst p with PHunk _ h => [h] | _ => [] end.
+  Definition hnum_v (p : fpath * bool) : list N := match fst p with PHunk _ h => [h] | _ => [] end.
 
-  Lemma sub_hunks_sorted n s : StronglySorted N.lt (hunk_numbers (children_files pre a (DHunkSub n s))).
+  Lemma sub_hunks_sorted_v n s : StronglySorted N.lt (hunk_numbers (children_files pre a (DHunkSub n s))).
   Proof.
-    unfold hunk_numbers. apply isort_N_sorted_lt. fold hnum.
-    apply (NoDup_flat_map_single fst hnum).
+    unfold hunk_numbers. apply isort_Nv_sorted_lt. fold hnum_v.
+    apply (NoDup_flat_map_single_v fst hnum_v).
     - unfold children_files. rewrite map_map. cbn [fst].
       apply (filter_keys_nodup (fun f => dpath_eqb (parent_f pre f) (DHunkSub n s))). exact NDf.
-    - intros p _. unfold hnum. destruct (fst p); cbn; lia.
+    - intros p _. unfold hnum_v. destruct (fst p); cbn; lia.
     - intros p q h Hp Hq Hhp Hhq.
-      assert (X : forall r, In r (children_files pre a (DHunkSub n s)) -> In h (hnum r) -> fst r = PHunk n h).
+      assert (X : forall r, In r (children_files pre a (DHunkSub n s)) -> In h (hnum_v r) -> fst r = PHunk n h).
       { intros r Hr Hh. unfold children_files in Hr. apply in_map_iff in Hr. destruct Hr as [[g x] [E Hg]].
         apply filter_In in Hg. destruct Hg as [_ Hpar]. subst r. cbn [fst snd] in *.
-        unfold hnum in Hh. cbn [fst] in Hh. destruct g as [| |b'|b'|b' h'|c]; try contradiction.
+        unfold hnum_v in Hh. cbn [fst] in Hh. destruct g as [| |b'|b'|b' h'|c]; try contradiction.
         destruct Hh as [->|[]]. cbn [parent_f] in Hpar.
         destruct (dpath_eqb_spec (DHunkSub b' (h / HUNKS_PER_SUBDIR)) (DHunkSub n s)) as [E|]; [|discriminate].
         inversion E; subst. reflexivity. }
       rewrite (X p Hp Hhp), (X q Hq Hhq). reflexivity.
   Qed.
 
-  Definition dnum (d : dpath) : list N := match d with DHunkSub _ s => [s] | _ => [] end.
+  Definition dnum_v (d : dpath) : list N := match d with DHunkSub _ s => [s] | _ => [] end.
 
-  Lemma subdirs_sorted n : StronglySorted N.lt (subdir_numbers (children_dirs a (DIndex n))).
+  Lemma subdirs_sorted_v n : StronglySorted N.lt (subdir_numbers (children_dirs a (DIndex n))).
   Proof.
-    unfold subdir_numbers. apply isort_N_sorted_lt. fold dnum.
-    apply (NoDup_flat_map_single (fun d => d) dnum).
+    unfold subdir_numbers. apply isort_Nv_sorted_lt. fold dnum_v.
+    apply (NoDup_flat_map_single_v (fun d => d) dnum_v).
     - rewrite map_id. unfold children_dirs. apply NoDup_filter. exact NDd.
     - intros p _. destruct p; cbn; lia.
     - intros p q s Hp Hq Hsp Hsq.
-      assert (X : forall r, In r (children_dirs a (DIndex n)) -> In s (dnum r) -> r = DHunkSub n s).
+      assert (X : forall r, In r (children_dirs a (DIndex n)) -> In s (dnum_v r) -> r = DHunkSub n s).
       { intros r Hr Hs. unfold children_dirs in Hr. apply filter_In in Hr. destruct Hr as [_ Hpar].
         destruct r as [| |b'|b'|b' s'|s']; try contradiction. destruct Hs as [->|[]].
         cbn [parent_d] in Hpar. destruct (dpath_eqb_spec (DIndex b') (DIndex n)) as [E|]; [|discriminate].
@@ -654,7 +654,7 @@ Section Listing.
       rewrite (X p Hp Hsp), (X q Hq Hsq). reflexivity.
   Qed.
 
-  Lemma flat_map_sorted (F : N -> list N) subs :
+  Lemma flat_map_sorted_v (F : N -> list N) subs :
     StronglySorted N.lt subs ->
     (forall s, StronglySorted N.lt (F s)) ->
     (forall s h, In h (F s) -> h / HUNKS_PER_SUBDIR = s) ->
@@ -669,11 +669,11 @@ Section Listing.
     apply (N.div_le_mono _ _ HUNKS_PER_SUBDIR) in H; [lia | discriminate].
   Qed.
 
-  Lemma listed_hunks_sorted n : StronglySorted N.lt (listed_hunks pre a n).
+  Lemma hunks_listed_sorted n : StronglySorted N.lt (hunks_listed pre a n).
   Proof.
-    unfold listed_hunks.
-    apply flat_map_sorted; [apply subdirs_sorted | intros s; apply sub_hunks_sorted|].
-    intros s h Hh. apply (hunk_listed n s h Hh).
+    unfold hunks_listed.
+    apply flat_map_sorted_v; [apply subdirs_sorted_v | intros s; apply sub_hunks_sorted_v|].
+    intros s h Hh. apply (hunk_listed_v n s h Hh).
   Qed.
 End Listing.
 
@@ -801,17 +801,17 @@ Section ReadableRun.
   Lemma healthy_listed b n :
     (forall h, get a (PHunk b h) <> None -> h < n) ->
     (forall h, h < n -> exists es, get a (PHunk b h) = Some (Good (PlHunk es))) ->
-    consecutive (listed_hunks pre a b) 0 = true /\ N.of_nat (length (listed_hunks pre a b)) = n
-    /\ (forall h, In h (listed_hunks pre a b) -> h < n).
+    consecutive (hunks_listed pre a b) 0 = true /\ N.of_nat (length (hunks_listed pre a b)) = n
+    /\ (forall h, In h (hunks_listed pre a b) -> h < n).
   Proof.
     intros H1 H2.
-    assert (Hin : forall h, In h (listed_hunks pre a b) <-> 0 <= h < n).
+    assert (Hin : forall h, In h (hunks_listed pre a b) <-> 0 <= h < n).
     { intros h. split.
-      - intros Hh. apply listed_hunks_exist in Hh. apply H1 in Hh. lia.
+      - intros Hh. apply hunks_listed_exist in Hh. apply H1 in Hh. lia.
       - intros [_ Hh]. destruct (H2 h Hh) as [es G].
         apply hunk_file_listed; [congruence|].
         apply (file_parent_dir (PHunk b h) _ G). }
-    destruct (sorted_range _ 0 n (listed_hunks_sorted pre a NDd NDf b) Hin) as [C L].
+    destruct (sorted_range _ 0 n (hunks_listed_sorted pre a NDd NDf b) Hin) as [C L].
     split; [exact C|]. split; [lia|]. intros h Hh. apply Hin in Hh. lia.
   Qed.
 
@@ -841,11 +841,11 @@ Section ReadableRun.
     Proof.
       intros Hb Hacc. destruct (band_healthy _ Hb) as (Hhead & m & H1 & H2 & Ht).
       destruct (healthy_listed _ _ H1 H2) as (C & L & Hlt).
-      assert (Hbad : numbers_bad (listed_hunks pre a (N.of_nat n)) (tail_count a (N.of_nat n)) = false).
+      assert (Hbad : numbers_bad (hunks_listed pre a (N.of_nat n)) (tail_count a (N.of_nat n)) = false).
       { unfold numbers_bad. rewrite C. cbn [negb orb].
         destruct Ht as [-> | ->]; [reflexivity|]. rewrite L, N.eqb_refl. reflexivity. }
       assert (E : ob_pure pre keep a n last acc merr
-                  = hl_pure keep a n (listed_hunks pre a (N.of_nat n)) last last acc merr).
+                  = hl_pure keep a n (hunks_listed pre a (N.of_nat n)) last last acc merr).
       { unfold ob_pure. unfold rd at 1. rewrite Hhead. cbn [head_status].
         unfold ls. rewrite (band_index_dir _ Hb). rewrite Hbad. reflexivity. }
       rewrite E. apply hl_pure_healthy; [|exact Hacc].
@@ -897,7 +897,7 @@ Section ReadableRun.
     assert (Hb : In (DBand b) (dirs a)) by (apply Hids; left; reflexivity).
     assert (Hids' : forall b', In b' ids -> In (DBand b') (dirs a)) by (intros b' Hb'; apply Hids; right; exact Hb').
     destruct (band_healthy _ Hb) as (Hhead & _).
-    unfold band_opens, rd. rewrite Hhead. cbn [head_status].
+    unfold opens_b, rd. rewrite Hhead. cbn [head_status].
     unfold ls. rewrite (proj2 (has_dir_In a (DBand b)) Hb).
     rewrite (head_listed _ _ Hhead).
     assert (Hb' : In (DBand (N.of_nat (N.to_nat b))) (dirs a)) by (rewrite N2Nat.id; exact Hb).
@@ -908,7 +908,7 @@ Section ReadableRun.
 
   Lemma root_band_ids b : In b (sorted_N (band_ids (children_dirs a DRoot))) -> In (DBand b) (dirs a).
   Proof.
-    unfold sorted_N. rewrite in_isort_N. unfold band_ids. rewrite in_flat_map.
+    unfold sorted_N. rewrite in_isort_Nv. unfold band_ids. rewrite in_flat_map.
     intros [d [Hd Hb]]. unfold children_dirs in Hd. apply filter_In in Hd. destruct Hd as [Hd _].
     destruct d; try contradiction. destruct Hb as [->|[]]. exact Hd.
   Qed.
@@ -926,7 +926,7 @@ Section ReadableRun.
     intros Hb. unfold block_ok in Hb.
     pose proof (file_parent_dir _ _ Hb) as Hsub. cbn [parent_f] in Hsub.
     unfold present0. apply in_flat_map. exists (pre c). split.
-    - unfold block_subdirs. rewrite in_isort_N, in_flat_map. exists (DBlockSub (pre c)).
+    - unfold block_subdirs. rewrite in_isort_Nv, in_flat_map. exists (DBlockSub (pre c)).
       split; [|left; reflexivity]. unfold children_dirs. apply filter_In. split; [exact Hsub | reflexivity].
     - unfold listed_blocks. apply in_flat_map. exists (PBlock c, true). split; [|left; reflexivity].
       unfold children_files. apply in_map_iff. exists (PBlock c, Good (PlBlock c)). split; [reflexivity|].
@@ -1492,7 +1492,7 @@ Qed.
 
 (* ---- what validate counts per band ---- *)
 Definition band_errs (pre : bytes -> N) (a : arch) (b : N) : N :=
-  if band_opens a b then
+  if opens_b a b then
     match ls pre a (DBand b) with
     | RList _ fs =>
         (if existsb (fun p => fpath_eqb (fst p) (PHead b)) fs then 0 else 1)
@@ -1510,7 +1510,7 @@ Section Detect.
   Proof.
     induction ids as [|b ids IH]; intros lens errs; cbn [vb_pure map nsum fold_right]; [cbn [snd]; lia|].
     fold (nsum (map (band_errs pre a) ids)). unfold band_errs at 1.
-    destruct (band_opens a b); [|rewrite IH; lia].
+    destruct (opens_b a b); [|rewrite IH; lia].
     destruct (ls pre a (DBand b)) as [|e|c|ds fs|ne]; try (rewrite IH; lia).
     destruct (stitch_pure pre keep_all a (N.to_nat b)) as [[l es] merr]. cbn [snd].
     rewrite IH. destruct (existsb _ fs); lia.
@@ -1518,7 +1518,7 @@ Section Detect.
 
   Lemma band_listed_root b : In (DBand b) (dirs a) -> In b (sorted_N (band_ids (children_dirs a DRoot))).
   Proof.
-    intros Hb. unfold sorted_N. rewrite in_isort_N. unfold band_ids. apply in_flat_map.
+    intros Hb. unfold sorted_N. rewrite in_isort_Nv. unfold band_ids. apply in_flat_map.
     exists (DBand b). split; [|left; reflexivity].
     unfold children_dirs. apply filter_In. split; [exact Hb | reflexivity].
   Qed.
@@ -1600,7 +1600,7 @@ Section Detect.
   (* ---- class: the band head is missing or does not open ---- *)
   Theorem validate_detects_missing_head skip hint b :
     get a PHeader = Some (Good PlJson) -> In DRoot (dirs a) -> In (DBand b) (dirs a) ->
-    band_opens a b = false ->
+    opens_b a b = false ->
     1 <= v_errors (validate_pure pre a skip hint).
   Proof.
     intros Hh HR Hb Ho. eapply N.le_trans; [|apply (validate_errors_ge skip hint b); assumption].
@@ -1610,10 +1610,10 @@ Section Detect.
   (* the errors of the band's own index, when the band opens and is listed *)
   Lemma band_errs_ge b :
     In (DBand b) (dirs a) ->
-    (band_opens a b = true -> 1 <= snd (ob_pure pre keep_all a (N.to_nat b) None [] 0)) ->
+    (opens_b a b = true -> 1 <= snd (ob_pure pre keep_all a (N.to_nat b) None [] 0)) ->
     1 <= band_errs pre a b.
   Proof.
-    intros Hb H. unfold band_errs. destruct (band_opens a b); [|lia]. specialize (H eq_refl).
+    intros Hb H. unfold band_errs. destruct (opens_b a b); [|lia]. specialize (H eq_refl).
     unfold ls. rewrite (proj2 (has_dir_In a (DBand b)) Hb).
     pose proof (stitch_pure_ge keep_all (N.to_nat b)). lia.
   Qed.
@@ -1627,30 +1627,30 @@ Section Detect.
   Proof.
     intros Hh HR Hb Hsub Hex Hbad.
     eapply N.le_trans; [|apply (validate_errors_ge skip hint b); assumption].
-    apply band_errs_ge; [exact Hb|]. intros Ho. apply band_opens_status in Ho.
+    apply band_errs_ge; [exact Hb|]. intros Ho. apply opens_b_status in Ho.
     unfold ob_pure. rewrite N2Nat.id, Ho.
     destruct (ls pre a (DIndex b)); cbn [snd]; try lia.
     eapply N.le_trans; [|apply (hl_pure_bad_hunk keep_all (N.to_nat b) _ h)].
     - destruct (numbers_bad _ _); lia.
     - apply hunk_file_listed; assumption.
-    - intros h' Hh'. rewrite N2Nat.id. apply (listed_hunks_exist pre a b h' Hh').
+    - intros h' Hh'. rewrite N2Nat.id. apply (hunks_listed_exist pre a b h' Hh').
     - rewrite N2Nat.id. exact Hbad.
   Qed.
 
   (* the hunk numbers are found wrong *)
   Lemma numbers_bad_ge b :
     In (DBand b) (dirs a) -> has_dir a (DIndex b) = true ->
-    numbers_bad (listed_hunks pre a b) (tail_count a b) = true ->
+    numbers_bad (hunks_listed pre a b) (tail_count a b) = true ->
     1 <= band_errs pre a b.
   Proof.
-    intros Hb Hi Hn. apply band_errs_ge; [exact Hb|]. intros Ho. apply band_opens_status in Ho.
+    intros Hb Hi Hn. apply band_errs_ge; [exact Hb|]. intros Ho. apply opens_b_status in Ho.
     unfold ob_pure. rewrite N2Nat.id, Ho. unfold ls. rewrite Hi, Hn.
     eapply N.le_trans; [|apply hl_pure_mono]. lia.
   Qed.
 
   Lemma index_missing_ge b : In (DBand b) (dirs a) -> has_dir a (DIndex b) = false -> 1 <= band_errs pre a b.
   Proof.
-    intros Hb Hi. apply band_errs_ge; [exact Hb|]. intros Ho. apply band_opens_status in Ho.
+    intros Hb Hi. apply band_errs_ge; [exact Hb|]. intros Ho. apply opens_b_status in Ho.
     unfold ob_pure. rewrite N2Nat.id, Ho. unfold ls. rewrite Hi. cbn [snd]. lia.
   Qed.
 
@@ -1665,9 +1665,9 @@ Section Detect.
     destruct (has_dir a (DIndex b)) eqn:Hi; [|apply index_missing_ge; assumption].
     apply numbers_bad_ge; [exact Hb | exact Hi|].
     unfold numbers_bad, tail_count, rd. rewrite Ht.
-    destruct (consecutive (listed_hunks pre a b) 0) eqn:C; [|reflexivity]. cbn [negb orb].
+    destruct (consecutive (hunks_listed pre a b) 0) eqn:C; [|reflexivity]. cbn [negb orb].
     apply negb_true_iff. apply N.eqb_neq. intros E.
-    apply (listed_hunks_exist pre a b k); [|exact Hg].
+    apply (hunks_listed_exist pre a b k); [|exact Hg].
     apply (consecutive_In _ 0 k C). lia.
   Qed.
 
@@ -1683,8 +1683,8 @@ Section Detect.
     destruct (has_dir a (DIndex b)) eqn:Hi; [|apply index_missing_ge; assumption].
     apply numbers_bad_ge; [exact Hb | exact Hi|].
     unfold numbers_bad.
-    destruct (consecutive (listed_hunks pre a b) 0) eqn:C; [|reflexivity]. exfalso.
-    apply (listed_hunks_exist pre a b k); [|exact Hg].
+    destruct (consecutive (hunks_listed pre a b) 0) eqn:C; [|reflexivity]. exfalso.
+    apply (hunks_listed_exist pre a b k); [|exact Hg].
     pose proof (consecutive_lt _ 0 j C (hunk_file_listed pre a b j Hj Hsub)).
     apply (consecutive_In _ 0 k C). lia.
   Qed.
@@ -1795,17 +1795,17 @@ Section DetectBlocks.
     Qed.
 
     Lemma stitch_pure_contains b h es e :
-      band_opens a b = true -> has_dir a (DIndex b) = true ->
+      opens_b a b = true -> has_dir a (DIndex b) = true ->
       In (DHunkSub b (h / HUNKS_PER_SUBDIR)) (dirs a) ->
       get a (PHunk b h) = Some (Good (PlHunk es)) -> In e es -> keep e = true ->
       In e (snd (fst (stitch_pure pre keep a (N.to_nat b)))).
     Proof.
-      intros Ho Hi Hsub G He Hk. apply band_opens_status in Ho.
+      intros Ho Hi Hsub G He Hk. apply opens_b_status in Ho.
       assert (H : In e (snd (fst (ob_pure pre keep a (N.to_nat b) None [] 0)))).
       { unfold ob_pure. rewrite N2Nat.id, Ho. unfold ls. rewrite Hi.
         apply (hl_pure_contains (N.to_nat b) _ h es e); auto.
         - apply hunk_file_listed; [congruence | exact Hsub].
-        - intros h' Hh'. rewrite N2Nat.id. apply (listed_hunks_exist pre a b h' Hh').
+        - intros h' Hh'. rewrite N2Nat.id. apply (hunks_listed_exist pre a b h' Hh').
         - rewrite N2Nat.id. exact G. }
       unfold stitch_pure. destruct (ob_pure pre keep a (N.to_nat b) None [] 0) as [[l ac] me].
       cbn [fst snd] in H. rewrite N2Nat.id.
@@ -1817,14 +1817,14 @@ Section DetectBlocks.
     In k (map fst lens) -> In k (map fst (fst (vb_pure pre a ids lens errs))).
   Proof.
     induction ids as [|b ids IH]; intros lens errs k Hk; cbn [vb_pure]; [exact Hk|].
-    destruct (band_opens a b); [|apply IH; exact Hk].
+    destruct (opens_b a b); [|apply IH; exact Hk].
     destruct (ls pre a (DBand b)); try (apply IH; exact Hk).
     destruct (stitch_pure pre keep_all a (N.to_nat b)) as [[l es] merr].
     apply IH. apply entry_lens_mono. exact Hk.
   Qed.
 
   Lemma vb_pure_keys_has ids : forall lens errs b e ad,
-    In b ids -> band_opens a b = true -> has_dir a (DBand b) = true ->
+    In b ids -> opens_b a b = true -> has_dir a (DBand b) = true ->
     In e (snd (fst (stitch_pure pre keep_all a (N.to_nat b)))) -> e_kind e = KFile -> In ad (e_addrs e) ->
     In (a_hash ad) (map fst (fst (vb_pure pre a ids lens errs))).
   Proof.
@@ -1833,7 +1833,7 @@ Section DetectBlocks.
     - rewrite Ho. unfold ls. rewrite Hd.
       destruct (stitch_pure pre keep_all a (N.to_nat b)) as [[l es] merr]. cbn [fst snd] in He.
       apply vb_pure_keys_mono. eapply entry_lens_has; eauto.
-    - destruct (band_opens a b0); [|eapply IH; eauto].
+    - destruct (opens_b a b0); [|eapply IH; eauto].
       destruct (ls pre a (DBand b0)); try (eapply IH; eauto).
       destruct (stitch_pure pre keep_all a (N.to_nat b0)) as [[l es] merr]. eapply IH; eauto.
   Qed.
@@ -1845,7 +1845,7 @@ Section DetectBlocks.
     destruct f; try destruct Hc. destruct ne; [destruct Hc as [<-|[]] | destruct Hc].
     unfold children_files in Hin. apply in_map_iff in Hin. destruct Hin as [[g x] [E Hg]].
     cbn [fst snd] in E. inversion E; subst g. apply filter_In in Hg. destruct Hg as [Hg _].
-    apply In_keys_get. apply (in_map fst) in Hg. exact Hg.
+    apply keys_get_v. apply (in_map fst) in Hg. exact Hg.
   Qed.
 
   (* a file entry of a listed, decodable hunk names a block *)
@@ -1860,7 +1860,7 @@ Section DetectBlocks.
     \/ forall lens errs, In c (map fst (fst (vb_pure pre a (sorted_N (band_ids (children_dirs a DRoot))) lens errs))).
   Proof.
     intros Hb Hsub (es & e & ad & G & He & Hk & Had & <-).
-    destruct (band_opens a b) eqn:Ho; [|left; unfold band_errs; rewrite Ho; lia].
+    destruct (opens_b a b) eqn:Ho; [|left; unfold band_errs; rewrite Ho; lia].
     destruct (has_dir a (DIndex b)) eqn:Hi; [|left; apply index_missing_ge; assumption].
     right. intros lens errs.
     apply (vb_pure_keys_has _ lens errs b e ad); auto.
@@ -1917,6 +1917,20 @@ Section DetectBlocks.
     - specialize (Hc eq_refl). lia.
   Qed.
 End DetectBlocks.
+
+(* ---- class: a referenced block whose file is there but does not hold its content
+        (zero-length, undecodable, or other bytes): detected when the blocks are read ---- *)
+Theorem validate_detects_corrupt_block pre a hint b h c x :
+  get a PHeader = Some (Good PlJson) -> In DRoot (dirs a) -> In DBlocks (dirs a) ->
+  In (DBand b) (dirs a) -> In (DHunkSub b (h / HUNKS_PER_SUBDIR)) (dirs a) ->
+  names_block a b h c -> get a (PBlock c) = Some x -> x <> Good (PlBlock c) ->
+  1 <= v_errors (validate_pure pre a false hint).
+Proof.
+  intros Hh HR HB Hb Hsub Hn Hg Hx.
+  apply (validate_detects_unreadable_block pre a hint b h c); auto.
+  unfold good_block. rewrite Hg. destruct x as [[| | | |d]| |]; try reflexivity.
+  destruct (str_eqb d c) eqn:E; [|reflexivity]. apply str_eqb_eq in E. subst d. congruence.
+Qed.
 
 (* ------------------------------------------------------------------------- *)
 (** * 8. The boolean checker of [Healthy] is sound                            *)
@@ -2046,7 +2060,7 @@ Section Damage.
       intros _. destruct (damaged_header _ _ _ HH HD) as (Hh & HRt & _); [discriminate|].
       apply (validate_detects_missing_head pre a' skip hint b); auto.
       + rewrite Hd. apply (file_parent_dir' pre a HR (PHead b) Hex).
-      + unfold band_opens, rd. destruct Hs as [-> | [x [-> Hb]]]; [reflexivity|].
+      + unfold opens_b, rd. destruct Hs as [-> | [x [-> Hb]]]; [reflexivity|].
         destruct Hb as [-> | [-> | []]]; reflexivity.
     - (* index hunk *)
       intros Hc. destruct (damaged_header _ _ _ HH HD) as (Hh & HRt & _); [discriminate|].
@@ -2121,7 +2135,7 @@ Proof.
   split; [|split; [|split]].
   - destruct W as (W1 & W2 & W3 & W4 & W5 & W6). unfold WFdirs. rewrite Hd.
     repeat split; auto. intros g x Hin.
-    assert (Hg : get a g <> None) by (apply Hsub, In_keys_get; apply (in_map fst) in Hin; exact Hin).
+    assert (Hg : get a g <> None) by (apply Hsub, keys_get_v; apply (in_map fst) in Hin; exact Hin).
     destruct (get a g) as [y|] eqn:G; [|congruence]. apply (W4 g y). apply get_In_files. exact G.
   - split; [|split; [|exact ND]].
     + intros b h es G. rewrite Hhunk in G. eapply Forall_impl; [|exact (RI b h es G)].
@@ -2152,3 +2166,511 @@ Proof.
       destruct Hb as [-> | [-> | []]]; reflexivity.
     + left. unfold tail_count, rd. rewrite Ho; [reflexivity|]. intros E. inversion E. contradiction.
 Qed.
+
+(* ------------------------------------------------------------------------- *)
+(** * 10. C10: restore from a damaged archive reports what it could not restore *)
+(* ------------------------------------------------------------------------- *)
+
+(* what restore gives for one entry in state [a] *)
+Definition readable_b (a : arch) (e : entry) : bool := forallb (addr_ok_b a) (e_addrs e).
+
+Definition restored_in (a : arch) (e : entry) : rfile :=
+  RFile e (match e_kind e with
+           | KFile => if readable_b a e then read_addrs (fun h => Some h) (e_addrs e) else None
+           | KUnknown => None
+           | _ => Some []
+           end).
+
+Definition not_restored (a : arch) (e : entry) : bool :=
+  match e_kind e with
+  | KFile => negb (readable_b a e)
+  | KUnknown => true
+  | _ => false
+  end.
+
+Lemma addrs_ok_read a addrs :
+  forallb (addr_ok_b a) addrs = true -> exists s, read_addrs (fun h => Some h) addrs = Some s.
+Proof.
+  induction addrs as [|ad addrs IH]; cbn [forallb read_addrs]; [eexists; reflexivity|].
+  rewrite andb_true_iff. intros [H1 H2]. apply addr_ok_b_iff in H1.
+  destruct (addr_ok_slice a ad H1) as [s0 Hs0]. destruct (IH H2) as [s Hs].
+  unfold read_address. rewrite Hs0, Hs. eexists. reflexivity.
+Qed.
+
+Section RestoreDamaged.
+  Variable pre : bytes -> N.
+  Variable a : arch.
+  Notation fin := (fin pre).
+
+  (* reading the addresses of one file, in any state: all of it, or nothing *)
+  Lemma read_file_spec addrs : forall cache acc k,
+    CacheOK a cache ->
+    exists cache',
+      CacheOK a cache'
+      /\ fin (read_file cache addrs acc k) a
+         = fin (k cache' (if forallb (addr_ok_b a) addrs
+                          then option_map (app acc) (read_addrs (fun h => Some h) addrs)
+                          else None)) a.
+  Proof.
+    induction addrs as [|ad addrs IH]; intros cache acc k HC.
+    - exists cache. split; [exact HC|]. cbn [read_file forallb read_addrs option_map]. rewrite app_nil_r. reflexivity.
+    - cbn [read_file forallb read_addrs]. unfold read_address.
+      (* the continuation once the block content [a_hash ad] is at hand *)
+      assert (Huse : forall cache1, CacheOK a cache1 -> block_ok a (a_hash ad) ->
+        exists cache',
+          CacheOK a cache'
+          /\ fin (match slice (a_hash ad) (a_start ad) (a_len ad) with
+                  | Some s => read_file cache1 addrs (acc ++ s) k
+                  | None => k cache1 None
+                  end) a
+             = fin (k cache' (if addr_ok_b a ad && forallb (addr_ok_b a) addrs
+                              then option_map (app acc)
+                                     match slice (a_hash ad) (a_start ad) (a_len ad) with
+                                     | Some s => match read_addrs (fun h => Some h) addrs with
+                                                 | Some r => Some (s ++ r) | None => None end
+                                     | None => None
+                                     end
+                              else None)) a).
+      { intros cache1 HC1 Hb.
+        assert (Eb : addr_ok_b a ad = (a_start ad + a_len ad <=? N.of_nat (length (a_hash ad)))).
+        { unfold addr_ok_b. unfold block_ok in Hb. rewrite Hb, str_eqb_refl. reflexivity. }
+        rewrite Eb. unfold slice.
+        destruct (a_start ad + a_len ad <=? N.of_nat (length (a_hash ad))); cbn [andb].
+        - destruct (IH cache1 (acc ++ firstn (N.to_nat (a_len ad)) (skipn (N.to_nat (a_start ad)) (a_hash ad))) k HC1)
+            as (cache' & HC' & E).
+          exists cache'. split; [exact HC'|]. rewrite E.
+          destruct (forallb (addr_ok_b a) addrs); [|reflexivity].
+          destruct (read_addrs (fun h => Some h) addrs); cbn [option_map]; [rewrite app_assoc|]; reflexivity.
+        - exists cache1. split; [exact HC1 | reflexivity]. }
+      destruct (find (fun p => str_eqb (fst p) (a_hash ad)) cache) as [p|] eqn:Ef.
+      + pose proof (find_cache a cache _ p HC Ef) as Ep. subst p.
+        apply find_some in Ef. destruct Ef as [Hin _]. destruct (HC _ _ Hin) as [_ Hb].
+        apply Huse; assumption.
+      + rewrite fin_read. unfold rd.
+        destruct (get a (PBlock (a_hash ad))) as [[[| | | |c]| |]|] eqn:G;
+          try (exists cache; split; [exact HC|]; unfold addr_ok_b at 1; rewrite G; reflexivity).
+        destruct (str_eqb c (a_hash ad)) eqn:Ec.
+        * apply str_eqb_eq in Ec. subst c.
+          apply Huse; [|exact G].
+          intros h c [E|Hin]; [inversion E; subst; split; [reflexivity | exact G] | apply HC; exact Hin].
+        * exists cache. split; [exact HC|]. unfold addr_ok_b at 1. rewrite G, Ec. reflexivity.
+  Qed.
+
+  (** restore of a list of entries, in ANY state, without faults: every entry is accounted
+      for, a file either completely read or reported *)
+  Theorem restore_entries_spec es : forall cache acc merr,
+    CacheOK a cache ->
+    exists r,
+      fin (restore_entries es cache acc merr) a = (a, Done r)
+      /\ r_ok r = true
+      /\ r_files r = acc ++ map (restored_in a) es
+      /\ r_merr r = merr + N.of_nat (length (filter (not_restored a) es)).
+  Proof.
+    induction es as [|e es IH]; intros cache acc merr HC.
+    - eexists. split; [reflexivity|]. cbn. rewrite app_nil_r, N.add_0_r. auto.
+    - cbn [restore_entries map filter]. unfold restored_in at 1, not_restored at 1.
+      destruct (e_kind e) eqn:Ek.
+      + destruct (read_file_spec (e_addrs e) cache []
+                    (fun cache' o => restore_entries es cache' (acc ++ [RFile e o])
+                                       (match o with Some _ => merr | None => merr + 1 end)) HC)
+          as (cache' & HC' & E).
+        rewrite E. fold (readable_b a e).
+        destruct (readable_b a e) eqn:Er.
+        * destruct (addrs_ok_read a _ Er) as [s Hs]. rewrite Hs. cbn [option_map app negb].
+          destruct (IH cache' (acc ++ [RFile e (Some s)]) merr HC') as (r & Hr & R1 & R2 & R3).
+          exists r. rewrite R2, <- app_assoc. auto.
+        * cbn [negb]. destruct (IH cache' (acc ++ [RFile e None]) (merr + 1) HC') as (r & Hr & R1 & R2 & R3).
+          exists r. rewrite R2, R3, <- app_assoc. cbn [length]. repeat split; auto. lia.
+      + destruct (IH cache (acc ++ [RFile e (Some [])]) merr HC) as (r & Hr & R1 & R2 & R3).
+        exists r. rewrite R2, <- app_assoc. auto.
+      + destruct (IH cache (acc ++ [RFile e (Some [])]) merr HC) as (r & Hr & R1 & R2 & R3).
+        exists r. rewrite R2, <- app_assoc. auto.
+      + destruct (IH cache (acc ++ [RFile e None]) (merr + 1) HC) as (r & Hr & R1 & R2 & R3).
+        exists r. rewrite R2, R3, <- app_assoc. cbn [length]. repeat split; auto. lia.
+  Qed.
+
+  Lemma list_blocks_r_pure subs : forall ok k,
+    (forall s, In s subs -> has_dir a (DBlockSub s) = true) ->
+    fin (list_blocks_r subs ok k) a = fin (k ok) a.
+  Proof.
+    induction subs as [|s subs IH]; intros ok k Hs; cbn [list_blocks_r]; [reflexivity|].
+    rewrite fin_list. unfold ls. rewrite (Hs s (or_introl eq_refl)).
+    apply IH. intros s' Hs'. apply Hs. right. exact Hs'.
+  Qed.
+
+  (* restore of a given band whose head opens = restore of its stitched listing *)
+  Lemma restore_pure_ok b keep :
+    get a PHeader = Some (Good PlJson) -> opens_b a b = true -> has_dir a DBlocks = true ->
+    fin (restore_prog (Specified b) keep) a
+    = fin (restore_entries (snd (fst (stitch_pure pre keep a (N.to_nat b)))) [] []
+             (snd (stitch_pure pre keep a (N.to_nat b)))) a.
+  Proof.
+    intros Hh Ho HB. apply opens_b_status in Ho.
+    unfold restore_prog. rewrite fin_read. unfold rd at 1. rewrite Hh.
+    unfold open_tree, resolve. rewrite fin_read, Ho.
+    rewrite fin_list. unfold ls. rewrite HB.
+    rewrite list_blocks_r_pure by apply block_subdir_listed.
+    rewrite fin_bind, snext_pure.
+    destruct (stitch_pure pre keep a (N.to_nat b)) as [[l es] merr]. reflexivity.
+  Qed.
+
+  (** C10: restoring band [b] of an archive in ANY state (damaged or not) in which the band
+      opens: the run ends normally, every listed entry is in the result either restored or
+      marked unreadable, and the error count is the listing's errors plus one per entry not
+      restored *)
+  Theorem restore_accounts b keep :
+    get a PHeader = Some (Good PlJson) -> opens_b a b = true -> In DBlocks (dirs a) ->
+    exists tr r,
+      run pre (restore_prog (Specified b) keep) a [] = (tr, a, Done r)
+      /\ r_ok r = true
+      /\ r_files r = map (restored_in a) (snd (fst (stitch_pure pre keep a (N.to_nat b))))
+      /\ r_merr r = snd (stitch_pure pre keep a (N.to_nat b))
+                    + N.of_nat (length (filter (not_restored a) (snd (fst (stitch_pure pre keep a (N.to_nat b)))))).
+  Proof.
+    intros Hh Ho HB.
+    destruct (restore_entries_spec (snd (fst (stitch_pure pre keep a (N.to_nat b)))) [] []
+                (snd (stitch_pure pre keep a (N.to_nat b)))) as (r & Hr & R1 & R2 & R3).
+    { intros h c []. }
+    rewrite <- restore_pure_ok in Hr; [|assumption|assumption|apply has_dir_In; exact HB].
+    destruct (fin_run pre _ _ _ _ Hr) as [tr E]. exists tr, r. auto.
+  Qed.
+End RestoreDamaged.
+
+Section RestoreReports.
+  Variable pre : bytes -> N.
+  Variable a : arch.
+  Variable keep : entry -> bool.
+
+  Lemma stitch_bad_hunk b h :
+    opens_b a b = true -> In (DHunkSub b (h / HUNKS_PER_SUBDIR)) (dirs a) ->
+    get a (PHunk b h) <> None -> (forall es, get a (PHunk b h) <> Some (Good (PlHunk es))) ->
+    1 <= snd (stitch_pure pre keep a (N.to_nat b)).
+  Proof.
+    intros Ho Hsub Hex Hbad. apply opens_b_status in Ho.
+    eapply N.le_trans; [|apply stitch_pure_ge].
+    unfold ob_pure. rewrite N2Nat.id, Ho.
+    destruct (ls pre a (DIndex b)); cbn [snd]; try lia.
+    eapply N.le_trans; [|apply (hl_pure_bad_hunk a keep (N.to_nat b) _ h)].
+    - destruct (numbers_bad _ _); lia.
+    - apply hunk_file_listed; assumption.
+    - intros h' Hh'. rewrite N2Nat.id. apply (hunks_listed_exist pre a b h' Hh').
+    - rewrite N2Nat.id. exact Hbad.
+  Qed.
+
+  Lemma stitch_missing_hunk_closed b n k :
+    opens_b a b = true -> get a (PTail b) = Some (Good (PlTail (Some n))) -> k < n ->
+    get a (PHunk b k) = None ->
+    1 <= snd (stitch_pure pre keep a (N.to_nat b)).
+  Proof.
+    intros Ho Ht Hk Hg. apply opens_b_status in Ho.
+    eapply N.le_trans; [|apply stitch_pure_ge].
+    unfold ob_pure. rewrite N2Nat.id, Ho. unfold ls.
+    destruct (has_dir a (DIndex b)); cbn [snd]; [|lia].
+    assert (Hn : numbers_bad (hunks_listed pre a b) (tail_count a b) = true).
+    { unfold numbers_bad, tail_count, rd. rewrite Ht.
+      destruct (consecutive (hunks_listed pre a b) 0) eqn:C; [|reflexivity]. cbn [negb orb].
+      apply negb_true_iff. apply N.eqb_neq. intros E.
+      apply (hunks_listed_exist pre a b k); [|exact Hg].
+      apply (consecutive_In _ 0 k C). lia. }
+    rewrite Hn. eapply N.le_trans; [|apply hl_pure_mono]. lia.
+  Qed.
+
+  (** C10: restore from a damaged archive.  Band [b] still opens.  An undecodable index
+      hunk, or one missing from a band with a tail, is reported; a listed file entry one of
+      whose blocks is missing, corrupt or too short is in the result as not restored, and
+      reported; every listed file entry whose blocks are all there is restored with the
+      content its addresses determine (the same as from the undamaged archive). *)
+  Theorem damage_reported_on_restore b :
+    get a PHeader = Some (Good PlJson) -> opens_b a b = true -> In DBlocks (dirs a) ->
+    exists tr r,
+      run pre (restore_prog (Specified b) keep) a [] = (tr, a, Done r) /\ r_ok r = true
+      /\ (forall h, In (DHunkSub b (h / HUNKS_PER_SUBDIR)) (dirs a) -> get a (PHunk b h) <> None ->
+                    (forall es, get a (PHunk b h) <> Some (Good (PlHunk es))) -> 0 < r_merr r)
+      /\ (forall n k, get a (PTail b) = Some (Good (PlTail (Some n))) -> k < n ->
+                      get a (PHunk b k) = None -> 0 < r_merr r)
+      /\ (forall e, In e (snd (fst (stitch_pure pre keep a (N.to_nat b)))) -> e_kind e = KFile ->
+                    ~ entry_ok a e -> In (RFile e None) (r_files r) /\ 0 < r_merr r)
+      /\ (forall e, In e (snd (fst (stitch_pure pre keep a (N.to_nat b)))) -> e_kind e = KFile ->
+                    entry_ok a e -> In (restored e) (r_files r)).
+  Proof.
+    intros Hh Ho HB.
+    destruct (restore_accounts pre a b keep Hh Ho HB) as (tr & r & E & R1 & R2 & R3).
+    exists tr, r. split; [exact E|]. split; [exact R1|].
+    split; [|split; [|split]].
+    - intros h Hsub Hex Hbad. pose proof (stitch_bad_hunk b h Ho Hsub Hex Hbad). lia.
+    - intros n k Ht Hk Hg. pose proof (stitch_missing_hunk_closed b n k Ho Ht Hk Hg). lia.
+    - intros e Hin Hk Hnok.
+      assert (Er : readable_b a e = false).
+      { destruct (readable_b a e) eqn:Er; [|reflexivity]. exfalso. apply Hnok. apply entry_ok_b_iff. exact Er. }
+      split.
+      + rewrite R2. apply in_map_iff. exists e. split; [|exact Hin].
+        unfold restored_in. rewrite Hk, Er. reflexivity.
+      + pose proof (filter_count_pos (not_restored a) e _ Hin) as Hc.
+        unfold not_restored at 1 in Hc. rewrite Hk, Er in Hc. specialize (Hc eq_refl). lia.
+    - intros e Hin Hk Hok.
+      assert (Er : readable_b a e = true) by (apply entry_ok_b_iff; exact Hok).
+      rewrite R2. apply in_map_iff. exists e. split; [|exact Hin].
+      unfold restored_in, restored. rewrite Hk, Er. reflexivity.
+  Qed.
+
+  (* what is listed: every kept entry of every decodable hunk of the band *)
+  Theorem restore_lists_hunk_entries b h es e :
+    opens_b a b = true -> has_dir a (DIndex b) = true ->
+    In (DHunkSub b (h / HUNKS_PER_SUBDIR)) (dirs a) ->
+    get a (PHunk b h) = Some (Good (PlHunk es)) -> In e es -> keep e = true ->
+    In e (snd (fst (stitch_pure pre keep a (N.to_nat b)))).
+  Proof. apply stitch_pure_contains. Qed.
+End RestoreReports.
+
+(* ------------------------------------------------------------------------- *)
+(** * 11. Examples (non-vacuity) and refutations, by computation              *)
+(* ------------------------------------------------------------------------- *)
+Module ValidExamples.
+  Import SafeExamples.
+
+  (* the archives of SafeP.SafeExamples are healthy; so is one whose newest band is
+     incomplete (no tail) *)
+  Definition a3_open : arch := remove_path ex_a3 (PTail 1).
+  Example ex_healthy : Healthy ex_pre ex_a2 /\ Healthy ex_pre ex_a3 /\ Healthy ex_pre a3_open.
+  Proof. split; [|split]; apply healthy_b_sound; vm_compute; reflexivity. Qed.
+  Definition ex_healthy_a3 : Healthy ex_pre ex_a3 := proj1 (proj2 ex_healthy).
+  Definition ex_healthy_open : Healthy ex_pre a3_open := proj2 (proj2 ex_healthy).
+  Example ex_healthy_nontrivial :
+    length (files ex_a3) = 13%nat /\ get ex_a3 (PTail 1) = Some (Good (PlTail (Some 2)))
+    /\ get a3_open (PTail 1) = None /\ count_addrs ex_a3 = 6%nat.
+  Proof. vm_compute. repeat split; reflexivity. Qed.
+
+  (* 1. a healthy archive validates silently: the theorem, and the computation *)
+  Example ex_silent_thm :
+    exists tr, run ex_pre (validate_prog false [[5;6]]) ex_a3 [] = (tr, ex_a3, Done {| v_ok := true; v_errors := 0 |}).
+  Proof. apply validate_healthy_silent. exact ex_healthy_a3. Qed.
+  Example ex_silent_computed :
+    snd (run ex_pre (validate_prog false []) ex_a3 []) = Done {| v_ok := true; v_errors := 0 |}
+    /\ snd (run ex_pre (validate_prog true []) a3_open []) = Done {| v_ok := true; v_errors := 0 |}
+    /\ validate_pure ex_pre ex_a3 false [] = {| v_ok := true; v_errors := 0 |}
+    /\ length (fst (fst (run ex_pre (validate_prog false []) ex_a3 []))) = 30%nat.
+  Proof. vm_compute. repeat split; reflexivity. Qed.
+
+  (* 2. damage that is reported: computed, and as instances of the theorem *)
+  Example ex_detected_computed :
+    v_errors (validate_pure ex_pre (remove_path ex_a3 (PHead 0)) true []) = 1
+    /\ v_errors (validate_pure ex_pre (replace_path ex_a3 (PHead 1) Empty) true []) = 1
+    /\ v_errors (validate_pure ex_pre (replace_path ex_a3 (PHunk 1 0) Garbage) true []) = 1
+    /\ v_errors (validate_pure ex_pre (remove_path ex_a3 (PHunk 1 1)) true []) = 1      (* count check *)
+    /\ v_errors (validate_pure ex_pre (remove_path a3_open (PHunk 1 0)) true []) = 1    (* numbering check *)
+    /\ v_errors (validate_pure ex_pre (remove_path ex_a3 (PBlock [5;6])) true []) = 1
+    /\ v_errors (validate_pure ex_pre (replace_path ex_a3 (PBlock [5;6]) Garbage) false []) = 2
+    /\ v_errors (validate_pure ex_pre (replace_path ex_a3 (PBlock [5;6]) (Good (PlBlock [5;5]))) false []) = 2
+    /\ v_errors (validate_pure ex_pre (replace_path ex_a3 (PBlock [5;6]) Empty) true []) = 1.
+  Proof. vm_compute. repeat split; reflexivity. Qed.
+
+  Definition ex_es01 : list entry :=
+    Eval vm_compute in match get ex_a3 (PHunk 0 1) with Some (Good (PlHunk es)) => es | _ => [] end.
+  Definition ex_e01 : entry := Eval vm_compute in match ex_es01 with e :: _ => e | [] => meta_from false (mk_s [] KFile 0 0) end.
+  Example ex_names_block : names_block ex_a3 0 1 [5;6].
+  Proof.
+    exists ex_es01, ex_e01, {| a_hash := [5;6]; a_start := 0; a_len := 2 |}.
+    vm_compute. repeat split; auto.
+  Qed.
+
+  Example ex_detected_thm :
+    1 <= v_errors (validate_pure ex_pre (remove_path ex_a3 (PHunk 1 0)) true [])
+    /\ 1 <= v_errors (validate_pure ex_pre (replace_path ex_a3 (PBlock [5;6]) (Good (PlBlock [5;5]))) false [])
+    /\ 1 <= v_errors (validate_pure ex_pre (remove_path ex_a3 (PBlock [5;6])) true [])
+    /\ 1 <= v_errors (validate_pure ex_pre (replace_path ex_a3 (PHead 1) Garbage) true []).
+  Proof.
+    split; [|split; [|split]].
+    - apply (validate_detects_damage ex_pre ex_a3 (PHunk 1 0)); [exact ex_healthy_a3 | |].
+      + apply dmg_removed. vm_compute. discriminate.
+      + right. left. vm_compute. discriminate.
+    - apply (validate_detects_damage ex_pre ex_a3 (PBlock [5;6])); [exact ex_healthy_a3 | |].
+      + apply dmg_replaced; [vm_compute; discriminate|]. right. right. exists [5;5]. split; [discriminate | reflexivity].
+      + split; [exists 0, 1; exact ex_names_block | left; reflexivity].
+    - apply (validate_detects_damage ex_pre ex_a3 (PBlock [5;6])); [exact ex_healthy_a3 | |].
+      + apply dmg_removed. vm_compute. discriminate.
+      + split; [exists 0, 1; exact ex_names_block | right; vm_compute; reflexivity].
+    - apply (validate_detects_damage ex_pre ex_a3 (PHead 1)); [exact ex_healthy_a3 | | exact I].
+      apply dmg_replaced; [vm_compute; discriminate|]. right. left. reflexivity.
+  Qed.
+  (* a hunk lost from an INCOMPLETE band, below another one: the numbering check *)
+  Example ex_detected_middle_thm :
+    1 <= v_errors (validate_pure ex_pre (remove_path a3_open (PHunk 1 0)) false []).
+  Proof.
+    apply (validate_detects_damage ex_pre a3_open (PHunk 1 0)); [exact ex_healthy_open | |].
+    - apply dmg_removed. vm_compute. discriminate.
+    - right. right. exists 1. split; [lia | vm_compute; discriminate].
+  Qed.
+
+  (* 2'. damage that validate does NOT report *)
+
+  (* the full statement "every lost index hunk is reported" is FALSE: the LAST hunk of a band
+     without a tail (an interrupted backup) can vanish unnoticed *)
+  Theorem validate_missing_last_hunk_refuted :
+    exists pre a b h a',
+      Healthy pre a /\ damaged a (PHunk b h) a' /\ get a' (PHunk b h) = None
+      /\ validate_pure pre a' false [] = {| v_ok := true; v_errors := 0 |}.
+  Proof.
+    exists ex_pre, a3_open, 1, 1, (remove_path a3_open (PHunk 1 1)).
+    split; [exact ex_healthy_open|]. split; [apply dmg_removed; vm_compute; discriminate|].
+    vm_compute. split; reflexivity.
+  Qed.
+
+  (* a corrupt (not lost) block is NOT found when the blocks are not read (--no-hashes) *)
+  Theorem validate_corrupt_block_skip_refuted :
+    exists pre a c a',
+      Healthy pre a /\ damaged a (PBlock c) a' /\ (exists b h, names_block a b h c)
+      /\ get a' (PBlock c) = Some Garbage
+      /\ validate_pure pre a' true [] = {| v_ok := true; v_errors := 0 |}.
+  Proof.
+    exists ex_pre, ex_a3, [5;6], (replace_path ex_a3 (PBlock [5;6]) Garbage).
+    split; [exact ex_healthy_a3|].
+    split; [apply dmg_replaced; [vm_compute; discriminate | right; left; reflexivity]|].
+    split; [exists 0, 1; exact ex_names_block|]. vm_compute. split; reflexivity.
+  Qed.
+
+  (* a band tail: lost = the legal incomplete state; undecodable or zero-length = no count
+     to check: nothing is reported (instances of [validate_tail_damage_silent]) *)
+  Example ex_tail_damage_silent :
+    validate_pure ex_pre (replace_path ex_a3 (PTail 1) Garbage) false [] = {| v_ok := true; v_errors := 0 |}
+    /\ validate_pure ex_pre (replace_path ex_a3 (PTail 1) Empty) false [] = {| v_ok := true; v_errors := 0 |}
+    /\ validate_pure ex_pre (remove_path ex_a3 (PTail 1)) false [] = {| v_ok := true; v_errors := 0 |}.
+  Proof.
+    split; [|split].
+    - apply (validate_tail_damage_silent ex_pre ex_a3 1); [exact ex_healthy_a3|].
+      apply dmg_replaced; [vm_compute; discriminate | right; left; reflexivity].
+    - apply (validate_tail_damage_silent ex_pre ex_a3 1); [exact ex_healthy_a3|].
+      apply dmg_replaced; [vm_compute; discriminate | left; reflexivity].
+    - apply (validate_tail_damage_silent ex_pre ex_a3 1); [exact ex_healthy_a3|].
+      apply dmg_removed. vm_compute. discriminate.
+  Qed.
+
+  (* 3. restore from a damaged archive *)
+  Definition a3_bad : arch := replace_path ex_a3 (PBlock [5;7]) Garbage.
+  Definition ex_e_b : entry :=
+    Eval vm_compute in match get ex_a3 (PHunk 1 1) with Some (Good (PlHunk (e :: _))) => e | _ => ex_e01 end.
+  Definition ex_e_a : entry :=
+    Eval vm_compute in match get ex_a3 (PHunk 1 0) with Some (Good (PlHunk (_ :: e :: _))) => e | _ => ex_e01 end.
+  Example ex_restore_damaged :
+    match snd (run ex_pre (restore_prog (Specified 1) keep_all) a3_bad []) with
+    | Done r => r_ok r = true /\ r_merr r = 1 /\ length (r_files r) = 3%nat
+                /\ nth_error (r_files r) 1 = Some (RFile ex_e_a (Some [1;2]))
+                /\ nth_error (r_files r) 2 = Some (RFile ex_e_b None)
+    | _ => False
+    end
+    /\ match snd (run ex_pre (restore_prog (Specified 1) keep_all) (replace_path ex_a3 (PHunk 1 0) Garbage) []) with
+       | Done r => r_merr r = 1 /\ length (r_files r) = 1%nat
+       | _ => False
+       end.
+  Proof. vm_compute. repeat split; reflexivity. Qed.
+  Example ex_restore_damaged_thm :
+    exists tr r,
+      run ex_pre (restore_prog (Specified 1) keep_all) a3_bad [] = (tr, a3_bad, Done r)
+      /\ In (RFile ex_e_b None) (r_files r) /\ 0 < r_merr r /\ In (restored ex_e_a) (r_files r).
+  Proof.
+    assert (P1 : get a3_bad PHeader = Some (Good PlJson)) by (vm_compute; reflexivity).
+    assert (P2 : opens_b a3_bad 1 = true) by (vm_compute; reflexivity).
+    assert (P3 : In DBlocks (dirs a3_bad)) by (vm_compute; right; left; reflexivity).
+    assert (Hb : In ex_e_b (snd (fst (stitch_pure ex_pre keep_all a3_bad (N.to_nat 1)))))
+      by (vm_compute; right; right; left; reflexivity).
+    assert (Ha : In ex_e_a (snd (fst (stitch_pure ex_pre keep_all a3_bad (N.to_nat 1)))))
+      by (vm_compute; right; left; reflexivity).
+    destruct (damage_reported_on_restore ex_pre a3_bad keep_all 1 P1 P2 P3) as (tr & r & E & _ & _ & _ & H3 & H4).
+    exists tr, r. split; [exact E|].
+    destruct (H3 ex_e_b Hb eq_refl) as [X Y].
+    { intros H. apply entry_ok_b_iff in H. vm_compute in H. discriminate. }
+    split; [exact X|]. split; [exact Y|].
+    apply (H4 ex_e_a Ha eq_refl). apply entry_ok_b_iff. vm_compute. reflexivity.
+  Qed.
+
+  (* 4. a damaged head (even one with an unparsable version) is an error, never a panic *)
+  Example ex_no_panic :
+    snd (run ex_pre (validate_prog false []) (replace_path ex_a3 (PHead 1) (Good (PlHead HvUnparsable))) [])
+    = Done {| v_ok := true; v_errors := 1 |}.
+  Proof. vm_compute. reflexivity. Qed.
+
+  (* 5. the hint: two orders give the same result; a "hint" naming a block twice does not *)
+  Example ex_delete_hint :
+    snd (run ex_pre (delete_prog [0] false false [[5;6]; [9]]) ex_a3 [])
+    = snd (run ex_pre (delete_prog [0] false false []) ex_a3 [])
+    /\ snd (run ex_pre (delete_prog [0] false false []) ex_a3 [])
+       = Done {| d_ok := true; d_unref := 1; d_bands := 1; d_blocks := 1; d_errs := 0 |}.
+  Proof.
+    split; [|vm_compute; reflexivity].
+    refine (proj2 (delete_hint_irrelevant ex_pre [0] false false [[5;6]; [9]] [] ex_a3 _ _)); [|constructor].
+    constructor; [intros [E|[]]; discriminate | constructor; [intros [] | constructor]].
+  Qed.
+  Example ex_delete_hint_two_blocks :
+    (* after deleting BOTH bands four blocks are unreferenced: two different orders *)
+    snd (run ex_pre (delete_prog [0;1] false false [[5;7]; [1;2]; [5;6]]) (remove_path ex_a3 (PTail 1)) [])
+    = snd (run ex_pre (delete_prog [0;1] false false [[1;2;3;4]; [5;6]]) (remove_path ex_a3 (PTail 1)) []).
+  Proof. vm_compute. reflexivity. Qed.
+
+  (* the statements without [NoDup] are FALSE *)
+  Theorem delete_hint_dup_refuted :
+    exists pre ids a hint1 hint2,
+      snd (run pre (delete_prog ids false false hint1) a []) <> snd (run pre (delete_prog ids false false hint2) a []).
+  Proof. exists ex_pre, [0], ex_a3, [[5;6];[5;6]], []. vm_compute. discriminate. Qed.
+  Theorem validate_hint_dup_refuted :
+    exists pre a hint1 hint2,
+      snd (run pre (validate_prog false hint1) a []) <> snd (run pre (validate_prog false hint2) a []).
+  Proof.
+    exists ex_pre, (replace_path ex_a3 (PBlock [5;6]) Garbage), [[5;6];[5;6]], []. vm_compute. discriminate.
+  Qed.
+
+  (* 6. the symlink guard *)
+  Definition mk_e (p : str) (k : kind) : entry :=
+    {| e_apath := p; e_kind := k; e_mtime := 0%Z; e_nanos := 0; e_mode := 420; e_user := None;
+       e_group := None; e_addrs := []; e_target := None |}.
+  (* "/", "/d" -> link, "/d/f" (stitched in from an older band), "/e" *)
+  Example ex_guard :
+    guard_links [mk_e [47] KDir; mk_e [47;100] KSymlink; mk_e [47;100;47;102] KFile; mk_e [47;101] KFile]
+    = ([mk_e [47] KDir; mk_e [47;100] KSymlink; mk_e [47;101] KFile], 1).
+  Proof. vm_compute. reflexivity. Qed.
+  (* "/de" is not beneath "/d" *)
+  Example ex_guard_identity :
+    guard_links [mk_e [47] KDir; mk_e [47;100] KSymlink; mk_e [47;100;101] KFile; mk_e [47;101] KFile]
+    = ([mk_e [47] KDir; mk_e [47;100] KSymlink; mk_e [47;100;101] KFile; mk_e [47;101] KFile], 0).
+  Proof.
+    apply guard_links_tree_identity. intros s e Hs He Hk Hp.
+    cbn [In] in Hs, He.
+    destruct Hs as [<-|[<-|[<-|[<-|[]]]]]; try discriminate Hk;
+      destruct He as [<-|[<-|[<-|[<-|[]]]]]; vm_compute in Hp; try discriminate Hp; reflexivity.
+  Qed.
+End ValidExamples.
+
+Print Assumptions no_panic_sound.
+Print Assumptions never_panics.
+Print Assumptions list_no_panic.
+Print Assumptions restore_no_panic.
+Print Assumptions validate_no_panic.
+Print Assumptions delete_no_panic.
+Print Assumptions init_no_panic.
+Print Assumptions snext_pure.
+Print Assumptions validate_pure_ok.
+Print Assumptions validate_healthy_silent.
+Print Assumptions validate_pure_readable.
+Print Assumptions validate_detects_missing_head.
+Print Assumptions validate_detects_bad_hunk.
+Print Assumptions validate_detects_missing_hunk_closed_band.
+Print Assumptions validate_detects_missing_middle_hunk.
+Print Assumptions validate_detects_unreadable_block.
+Print Assumptions validate_detects_missing_block.
+Print Assumptions validate_detects_corrupt_block.
+Print Assumptions validate_detects_damage.
+Print Assumptions damage_reported_by_validate.
+Print Assumptions validate_tail_damage_silent.
+Print Assumptions restore_entries_spec.
+Print Assumptions restore_accounts.
+Print Assumptions damage_reported_on_restore.
+Print Assumptions restore_lists_hunk_entries.
+Print Assumptions delete_hint_irrelevant.
+Print Assumptions validate_hint_irrelevant.
+Print Assumptions guard_links_gen_confined.
+Print Assumptions guard_links_confined.
+Print Assumptions guard_links_gen_tree_identity.
+Print Assumptions guard_links_tree_identity.
+Print Assumptions healthy_b_sound.
+Print Assumptions ValidExamples.validate_missing_last_hunk_refuted.
+Print Assumptions ValidExamples.validate_corrupt_block_skip_refuted.
+Print Assumptions ValidExamples.delete_hint_dup_refuted.
+Print Assumptions ValidExamples.validate_hint_dup_refuted.
